@@ -357,6 +357,20 @@ func init() {
 		ex.W.autoO2 = ex.str(a[0], "label")
 		return nil
 	})
+	// The coroutine that cmd/serve registers for a request kind: read from the SSA of the real
+	// registration block (calls to (*System).AddOnRequest with a constant kind), so that the kernel
+	// double dispatches exactly like the production server does.
+	vx("ServeRegistered", func(ex *Exec, fr *Frame, a []Value, s ssa.Instruction) Value {
+		kind := int64(ex.concreteInt(a[0], "request kind"))
+		reg := ex.P.serveRegistrations()
+		fns := reg[kind]
+		if len(fns) == 0 {
+			return &IfaceV{}
+		}
+		// a kind registered twice: the later registration wins (map assignment in AddOnRequest)
+		fn := fns[len(fns)-1]
+		return &IfaceV{typ: fn.Signature, v: &FuncV{fn: fn}}
+	})
 	vx("IgnoreGo", func(ex *Exec, fr *Frame, a []Value, s ssa.Instruction) Value {
 		ex.W.ignoreGo = true
 		return nil
@@ -423,4 +437,44 @@ func init() {
 	vx("YieldSub", func(ex *Exec, fr *Frame, a []Value, s ssa.Instruction) Value {
 		return ex.W.yields[ex.concreteInt(a[0], "yield index")].sub
 	})
+}
+
+// serveRegistrations scans cmd/serve for system.AddOnRequest(kind, coroutine) calls.
+func (p *Program) serveRegistrations() map[int64][]*ssa.Function {
+	p.regOnce.Do(func() {
+		p.reg = map[int64][]*ssa.Function{}
+		sp := p.pkg("cmd/serve")
+		if sp == nil {
+			return
+		}
+		var visit func(fn *ssa.Function)
+		visit = func(fn *ssa.Function) {
+			for _, b := range fn.Blocks {
+				for _, in := range b.Instrs {
+					c, ok := in.(*ssa.Call)
+					if !ok {
+						continue
+					}
+					callee := c.Call.StaticCallee()
+					if callee == nil || callee.Name() != "AddOnRequest" || len(c.Call.Args) != 3 {
+						continue
+					}
+					k, ok1 := c.Call.Args[1].(*ssa.Const)
+					f, ok2 := c.Call.Args[2].(*ssa.Function)
+					if ok1 && ok2 {
+						p.reg[k.Int64()] = append(p.reg[k.Int64()], f)
+					}
+				}
+			}
+			for _, an := range fn.AnonFuncs {
+				visit(an)
+			}
+		}
+		for _, m := range sp.Members {
+			if fn, ok := m.(*ssa.Function); ok {
+				visit(fn)
+			}
+		}
+	})
+	return p.reg
 }
